@@ -8,8 +8,100 @@ from ..engine import FamilySpec
 NARY = ("Add", "Multiply")
 
 
-def arities(tier):
-    return [0, 1, 2, 3] if tier == "quick" else [0, 1, 2, 3, 4]
+import ast as _ast
+
+_ARITY_CACHE = {}
+
+
+def _threshold_of(tree):
+    cmax = 0
+    for n in _ast.walk(tree):
+        if isinstance(n, _ast.Compare):
+            sides = [n.left] + list(n.comparators)
+            lengthy = any((isinstance(x, _ast.Call) and isinstance(x.func, _ast.Name) and x.func.id == "len") or
+                          (isinstance(x, _ast.Name) and any(t in x.id.lower() for t in ("count", "length", "arity", "size")))
+                          for x in sides)
+            if lengthy:
+                for x in sides:
+                    if isinstance(x, _ast.Constant) and isinstance(x.value, int) and not isinstance(x.value, bool):
+                        cmax = max(cmax, abs(x.value))
+        if isinstance(n, _ast.Call) and isinstance(n.func, _ast.Name) and n.func.id == "range":
+            for x in n.args:
+                for c in _ast.walk(x):
+                    if isinstance(c, _ast.Constant) and isinstance(c.value, int) and not isinstance(c.value, bool) and abs(c.value) < 50:
+                        cmax = max(cmax, abs(c.value))
+    return cmax
+
+
+CORE_METHODS = ("__init__", "_rebuild", "_evaluate", "_reset_evaluation_cache", "_value_formula", "_verify_domain_constraints")
+
+
+def method_threshold(prog, cls, method):
+    """Arity threshold relevant for one method of an n-ary class: the method itself, the core
+    methods every obligation runs through, the shared helper modules; the step driver also
+    depends on every rule of the class."""
+    key = (id(prog), cls.name, method)
+    if key in _ARITY_CACHE:
+        return _ARITY_CACHE[key]
+    cmax = 0
+    names = set(CORE_METHODS) | {method}
+    if method in ("_take_reduction_step", "_normalize_fully_reduced", "_normalize", "_fully_reduce"):
+        names |= {m for c in cls.mro for m in c.methods if m.startswith("_reduce_")}
+    if method in ("at",):
+        names |= {"at"}
+    if method in ("__repr__", "__str__"):
+        names |= {"__repr__", "__str__", "_to_string"}
+    for m in names:
+        fd = cls.lookup(m)
+        if fd is not None:
+            cmax = max(cmax, _threshold_of(fd.node))
+    for mod in prog.modules.values():
+        if mod.short in ("utilities", "math_functions", "accumulators") or (mod.short == "expression" and "base_expression" in mod.name):
+            for fd in mod.funcs.values():
+                cmax = max(cmax, _threshold_of(fd.node))
+        if mod.short in (cls.name.lower(),):
+            for fd in mod.funcs.values():
+                cmax = max(cmax, _threshold_of(fd.node))
+    _ARITY_CACHE[key] = cmax
+    return cmax
+
+
+def arity_thresholds(prog):
+    """Largest integer constant that the n-ary code compares a length / count against: a proof
+    per arity 0..K only covers the code if K exceeds every such threshold."""
+    key = id(prog)
+    if key in _ARITY_CACHE:
+        return _ARITY_CACHE[key]
+    cmax = 0
+    mods = [m for m in prog.modules.values() if m.short in ("add", "multiply", "n_ary_expression", "utilities", "expression", "math_functions", "accumulators")]
+    for m in mods:
+        cmax = max(cmax, _threshold_of(m.tree))
+    for m in []:
+        for n in _ast.walk(m.tree):
+            if isinstance(n, _ast.Compare):
+                sides = [n.left] + list(n.comparators)
+                lengthy = any((isinstance(x, _ast.Call) and isinstance(x.func, _ast.Name) and x.func.id == "len") or
+                              (isinstance(x, _ast.Name) and any(t in x.id.lower() for t in ("count", "length", "arity", "size")))
+                              for x in sides)
+                if lengthy:
+                    for x in sides:
+                        if isinstance(x, _ast.Constant) and isinstance(x.value, int) and not isinstance(x.value, bool):
+                            cmax = max(cmax, abs(x.value))
+            if isinstance(n, _ast.Call) and isinstance(n.func, _ast.Name) and n.func.id == "range":
+                for x in n.args:
+                    for c in _ast.walk(x):
+                        if isinstance(c, _ast.Constant) and isinstance(c.value, int) and not isinstance(c.value, bool) and abs(c.value) < 50:
+                            cmax = max(cmax, abs(c.value))
+    _ARITY_CACHE[key] = cmax
+    return cmax
+
+
+def arities(tier, prog=None):
+    k = 3 if tier == "quick" else 4
+    if prog is not None:
+        # the code branches on an arity threshold beyond K: extend K past it (capped)
+        k = max(k, min(arity_thresholds(prog) + 1, 7))
+    return list(range(k + 1))
 
 
 def class_variants(prog, tier):
@@ -17,7 +109,7 @@ def class_variants(prog, tier):
     out = []
     for cls in prog.concrete_expression_classes():
         if cls.name in NARY:
-            for k in arities(tier):
+            for k in arities(tier, prog):
                 out.append((cls, k, f"{cls.name}[k={k}]", f"arity={k}"))
         else:
             out.append((cls, None, cls.name, None))
